@@ -64,10 +64,14 @@ impl PartialEq for SV {
     }
 }
 impl Eq for SV {}
+/// per case (`Program::sym_hash`): reclaimable interned values hash by value. Workers pinned to
+/// one core still have a single shard, so slots are reclaimed across different hashes (the key
+/// map entry of a reused slot moves from the old value's hash to the new one's).
+pub static SYM_VALUE_HASH: std::sync::atomic::AtomicBool = std::sync::atomic::AtomicBool::new(false);
 impl std::hash::Hash for SV {
     fn hash<H: std::hash::Hasher>(&self, s: &mut H) {
         fault::tick(Site::FieldHash);
-        s.write_i16(0)
+        if SYM_VALUE_HASH.load(Ordering::Relaxed) { s.write_u32(self.0) } else { s.write_i16(0) }
     }
 }
 
@@ -868,6 +872,7 @@ impl World {
     /// `vals[slot][field] = (value, durability)`
     pub fn new(prog: Arc<Program>, vals: &[[(u32, D); 2]], cells: Vec<u32>) -> World {
         COARSE_IDENT_HASH.store(prog.coarse_hash, Ordering::SeqCst);
+        SYM_VALUE_HASH.store(prog.sym_hash, Ordering::SeqCst);
         let ctx = new_ctx(prog.clone(), cells);
         let c2 = ctx.clone();
         let storage = salsa::Storage::new(Some(Box::new(move |ev| c2.on_event(ev))));
